@@ -158,6 +158,15 @@ Definition parse_params (fuel : nat) (s : pst) : pr (list str) :=
   if peek_is s TRParen then POk [] (next s)
   else parse_params_loop fuel [] (next s).
 
+(* bindPostfix: `x++` reaches the parser as two statements, `x` and `++`; the operator names its variable by the
+   token before it, which is `)` in `(x)++` - when the statement before the operator is the name of a variable,
+   that name is used (repair of D43).  `acc` holds the statements parsed so far, latest first. *)
+Definition bind_postfix (acc : list stmt) (st : stmt) : stmt :=
+  match st, acc with
+  | SExpr (EPostfix _ op), SExpr (EIdent n) :: _ => SExpr (EPostfix n op)
+  | _, _ => st
+  end.
+
 Fixpoint parse_expression (fuel : nat) (prec : N) (s0 : pst) {struct fuel} : pr expr :=
   match fuel with
   | O => PFuel
@@ -395,7 +404,7 @@ with parse_block_loop (fuel : nat) (acc : list stmt) (s : pst) {struct fuel} : p
         pdo (st, s1) <- parse_statement f s;
         let s2 := next s1 in
         if cur_is s2 TEOF || cur_is s2 TIllegal then PErr
-        else parse_block_loop f (st :: acc) s2
+        else parse_block_loop f (bind_postfix acc st :: acc) s2
   end
 
 with parse_statement (fuel : nat) (s : pst) {struct fuel} : pr stmt :=
@@ -460,7 +469,7 @@ Fixpoint parse_program_loop (fuel : nat) (acc : list stmt) (s : pst) : pr progra
       else if cur_is s TIllegal then PErr
       else
         pdo (st, s1) <- parse_statement fuel s;
-        parse_program_loop f (st :: acc) (next s1)
+        parse_program_loop f (bind_postfix acc st :: acc) (next s1)
   end.
 
 Definition init_pst (ts : list token) : pst :=
